@@ -78,29 +78,29 @@ def b64decodeStr (s : List Nat) : Option Bytes :=
 
 def isCont (b : UInt8) : Bool := 128 ≤ b.toNat && b.toNat < 192
 
-/-- `bytes.decode("utf8")`: code points, or `none` for `UnicodeDecodeError`. -/
-def utf8Decode : Bytes → Option (List Nat)
-  | [] => some []
-  | a :: rest =>
-    let x := a.toNat
-    if x < 128 then (utf8Decode rest).map (x :: ·)
-    else if 194 ≤ x ∧ x < 224 then
-      match rest with
-      | b :: r => if isCont b then (utf8Decode r).map (((x - 192) * 64 + (b.toNat - 128)) :: ·) else none
-      | _ => none
-    else if 224 ≤ x ∧ x < 240 then
-      match rest with
-      | b :: c :: r =>
-        let cp := (x - 224) * 4096 + (b.toNat - 128) * 64 + (c.toNat - 128)
-        if isCont b && isCont c && 2048 ≤ cp && !(55296 ≤ cp && cp < 57344) then (utf8Decode r).map (cp :: ·) else none
-      | _ => none
-    else if 240 ≤ x ∧ x < 245 then
-      match rest with
-      | b :: c :: d :: r =>
-        let cp := (x - 240) * 262144 + (b.toNat - 128) * 4096 + (c.toNat - 128) * 64 + (d.toNat - 128)
-        if isCont b && isCont c && isCont d && 65536 ≤ cp && cp < 1114112 then (utf8Decode r).map (cp :: ·) else none
-      | _ => none
+/-- `bytes.decode("utf8")` as a byte-at-a-time automaton: `need` continuation bytes are still expected for
+the code point accumulated in `cp`, whose smallest non-overlong value is `lo`.  `none` = `UnicodeDecodeError`
+(the decoder is strict, so only *whether* it fails matters, not where). -/
+def utf8Loop (need cp lo : Nat) : Bytes → Option (List Nat)
+  | [] => if need = 0 then some [] else none
+  | b :: rest =>
+    let x := b.toNat
+    if need = 0 then
+      if x < 128 then (utf8Loop 0 0 0 rest).map (x :: ·)
+      else if 194 ≤ x ∧ x < 224 then utf8Loop 1 (x - 192) 128 rest
+      else if 224 ≤ x ∧ x < 240 then utf8Loop 2 (x - 224) 2048 rest
+      else if 240 ≤ x ∧ x < 245 then utf8Loop 3 (x - 240) 65536 rest
+      else none
+    else if isCont b then
+      let cp' := cp * 64 + (x - 128)
+      if need = 1 then
+        if lo ≤ cp' ∧ cp' < 1114112 ∧ ¬(55296 ≤ cp' ∧ cp' < 57344) then (utf8Loop 0 0 0 rest).map (cp' :: ·)
+        else none
+      else utf8Loop (need - 1) cp' lo rest
     else none
+
+/-- `bytes.decode("utf8")`: code points, or `none` for `UnicodeDecodeError`. -/
+def utf8Decode (b : Bytes) : Option (List Nat) := utf8Loop 0 0 0 b
 
 /-! ### `str.strip()` and `str.split(" ", 1)` -/
 
@@ -141,7 +141,9 @@ def canonSI (seg : String) : Option String :=
 
 /-- `int(signed=False)` converter: regex `\d+` (ASCII digits; other Unicode digits are outside the model). -/
 def parseShnum (seg : String) : Option Nat :=
-  if seg.isEmpty then none
-  else if seg.toList.all (fun c => '0' ≤ c ∧ c ≤ '9') then seg.toNat? else none
+  let cs := seg.toList
+  if cs.isEmpty then none
+  else if cs.all (fun c => '0' ≤ c ∧ c ≤ '9') then some (cs.foldl (fun acc c => acc * 10 + (c.toNat - 48)) 0)
+  else none
 
 end Tahoe.Http
